@@ -15,7 +15,7 @@ use crate::family::{self, Point};
 pub enum Res {
     /// outside the supported / admissible class (reason)
     Filtered(&'static str),
-    Ok { proof_bytes: usize },
+    Ok { proof_bytes: usize, unique: usize },
     /// coin exhausted its 1000 attempts (outside the claim)
     CoinExhausted,
     Violation(String, String),
@@ -82,7 +82,7 @@ impl<'a> PairFn for Complete<'a> {
             Ok(Err(e)) => return Res::Violation(format!("serialized honest proof does not parse ({})", squeeze(&e.to_string())), String::new()),
             Err(p) => return Res::Violation(format!("parsing a serialized honest proof panics ({})", p.class()), String::new()),
         }
-        Res::Ok { proof_bytes: bytes.len() }
+        Res::Ok { proof_bytes: bytes.len(), unique: proof.num_unique_queries as usize }
     }
 }
 
@@ -103,7 +103,7 @@ pub fn squeeze(s: &str) -> String {
 pub fn subs(run: &Arc<Run>) -> Vec<Arc<dyn Sub>> {
     let thorough = run.tier().is_thorough();
     let seed = run.seed();
-    run.rule("base configuration (width 2, n=16, degree-2 rule, one single + one periodic assertion, 1 exemption, 3 queries, blowup 4, folding 2, remainder degree 3) per (field, hasher) pair; every configuration obtained by changing <= d of 14 dimensions (width {1,2,7,8,9,16,17,64,255}; rule {x^d+c for d=1,2,3,4,5,9; x*k+c with periodic cycle 2,4,n; rotation by a root of unity of order 2,4,n; constant; Fibonacci pair; all-constant}; n {8..256}; exemptions {1,2,3,n/2,n/2+1}; exempt-row fill {rule, 0, random}; 9 assertion sets (single at 0 / n-1 / both sides of the exemption boundary, periodic with first step 0 and non-zero and strides 2,n/2,n, sequences of n/2 and 2 values with zero and non-zero first step); aux {none, 1-2 running sums with 0-3 random elements, with Lagrange kernel column}; initial state {seeded,0,1,p-1}; queries {1,2,3,27,255}; blowup {2..128}; grinding {0,1,8}; extension {1,2,3}; folding {2,4,8,16}; remainder degree {0..255}) to any other value, d=1 quick / d=2 thorough, plus the full product of the shape-critical sub-space; points outside the admissible class (FRI schedule, queries >= LDE size, constructor refusals) are filtered and counted; a case is non-trivial when its proof was produced, verified, serialized, parsed and verified again; distinct by (pair, point)");
+    run.rule("base configuration (width 2, n=16, degree-2 rule, one single + one periodic assertion, 1 exemption, 3 queries, blowup 4, folding 2, remainder degree 3) per (field, hasher) pair; every configuration obtained by changing <= d of 14 dimensions (width {1,2,7,8,9,16,17,64,255}; rule {x^d+c for d=1,2,3,4,5,9; x*k+c with periodic cycle 2,4,n; rotation by a root of unity of order 2,4,n; constant; Fibonacci pair; all-constant}; n {8..256}; exemptions {1,2,3,n/2,n/2+1}; exempt-row fill {rule, 0, random}; 9 assertion sets (single at 0 / n-1 / both sides of the exemption boundary, periodic with first step 0 and non-zero and strides 2,n/2,n, sequences of n/2 and 2 values with zero and non-zero first step); aux {none, 1-2 running sums with 0-3 random elements, with Lagrange kernel column}; initial state {seeded,0,1,p-1}; queries {1,2,3,27,255}; blowup {2..128}; grinding {0,1,8}; extension {1,2,3}; folding {2,4,8,16}; remainder degree {0..255}) to any other value, d=1 quick / d=2 thorough, plus the full product of the shape-critical sub-space, plus proofs with 255 queries over a 2^17-point LDE domain (n=1024, blowup 128) of which at least one must carry 255 distinct positions; points outside the admissible class (FRI schedule, queries >= LDE size, constructor refusals) are filtered and counted; a case is non-trivial when its proof was produced, verified, serialized, parsed and verified again; distinct by (pair, point)");
     run.assume("traces are valid by construction and re-checked by the reference validity predicate; runs in which the coin exhausts its 1000 attempts are excluded as the property states");
     let mut points: Vec<Point> = family::within(if thorough { 2 } else { 1 });
     points.extend(family::shape_critical());
@@ -131,7 +131,7 @@ pub fn subs(run: &Arc<Run>) -> Vec<Arc<dyn Sub>> {
                 };
                 match dispatch(pair, Complete { st: &st }) {
                     Res::Filtered(why) => out.class(&format!("filtered: {why}")),
-                    Res::Ok { proof_bytes } => {
+                    Res::Ok { proof_bytes, .. } => {
                         out.nontrivial();
                         out.class(if proof_bytes < 4096 { "accepted (proof < 4 KiB)" } else if proof_bytes < 65536 { "accepted (proof 4-64 KiB)" } else { "accepted (proof > 64 KiB)" });
                     },
@@ -141,6 +141,43 @@ pub fn subs(run: &Arc<Run>) -> Vec<Arc<dyn Sub>> {
                 }
             },
             move |idx| json!({"pair": PAIRS[pair], "point": family::describe(&pts2[idx as usize])}),
+        ));
+    }
+    // the largest number of query positions a proof can carry: 255 queries over an LDE domain large enough for all of
+    // them to be distinct (2^17 points; the small domains above always contain repetitions). Trace seeds are tried in
+    // order; the sub-space requires that at least one of them really gives 255 distinct positions.
+    for pair in crate::pairs(run) {
+        subs.push(sub_t(
+            &format!("{}.max_unique_queries", PAIRS[pair]),
+            if thorough { 6 } else { 2 },
+            600,
+            true,
+            move |idx, out| {
+                let p = family::base_point();
+                let Some(mut st) = family::statement(&p, seed.wrapping_add(1000 + idx)) else { return };
+                let mut spec = (*st.spec).clone();
+                spec.n = 1024;
+                st.spec = Arc::new(spec);
+                st.opts.queries = 255;
+                st.opts.blowup = 128;
+                st.opts.folding = 8;
+                st.opts.rem_deg = 31;
+                match dispatch(pair, Complete { st: &st }) {
+                    Res::Filtered(why) => out.violation(format!("HARNESS: max-unique-queries point filtered: {why}"), json!({})),
+                    Res::Ok { unique, .. } => {
+                        out.nontrivial();
+                        if unique == 255 {
+                            out.class("accepted with 255 distinct query positions");
+                        } else {
+                            out.class("accepted (255 queries, repeated positions)");
+                        }
+                    },
+                    Res::CoinExhausted => out.class("excluded: coin exhausted"),
+                    Res::Violation(sig, detail) => out.violation(format!("{}: {}", PAIRS[pair], sig), json!({"spec": st.spec.json(), "options": format!("{:?}", st.opts), "detail": detail})),
+                    Res::Harness(e) => out.violation(format!("HARNESS: {e}"), json!({})),
+                }
+            },
+            move |idx| json!({"pair": PAIRS[pair], "max_unique_queries_seed": idx}),
         ));
     }
     subs
